@@ -1,4 +1,4 @@
-// C09 — stream ids: unique while in flight, bounded, recycled, refused when exhausted.
+// C10 — responses reach exactly the request with the same stream id.
 // E3: BFS to fixpoint over operation histories of the real in-flight handler against a reference
 // model; E2: exhaustive preemption-bounded schedules of multi-threaded handler scenarios.
 package main
@@ -13,8 +13,8 @@ func main() {
 	if hmodel.Dispatch() {
 		return
 	}
-	c := vlib.New("C09", "model_checking")
+	c := vlib.New("C10", "model_checking")
 	t := &hmodel.Totals{}
-	hmodel.RunHandlerLevel(c, "C09", t, "panic", "deadlock", "livelock")
+	hmodel.RunHandlerLevel(c, "C10", t, "panic", "deadlock", "livelock")
 	hmodel.Finish(c, t, "BFS: a state is the canonical dump of the real handler (in-flight entries with managed/queued/done, free-id FIFO in order, closed flag); every transition is the real operation compared with the reference model, plus a conservation probe (answer everything, then N managed sends) from every reachable state. Explore: a schedule is a vector of scheduler choices (preemption-bounded); outcomes are distinct observation logs.")
 }
